@@ -91,7 +91,8 @@ Descend(k, ub, D) == IF k >= Cap THEN k - Cap
 UB(i, u, B) == (i * UDen + u) * sumT[1]
 
 Sample(B, u) ==
-  /\ size >= 1 /\ B \in 1..size
+  \* the batch size is not bounded by the current length (strata may then share an index); explored up to twice the length
+  /\ size >= 1 /\ B \in 1..(2 * size)
   /\ u \in [1..B -> 0..(UDen - 1)]
   /\ LET D   == B * UDen
          idx == [i \in 1..B |-> Descend(1, UB(i - 1, u[i], B), D)]
